@@ -81,6 +81,7 @@ def shards(tier):
     out.append({"part": "fixtures"})
     out += [{"part": "wide", "i": i} for i in range(len(WIDE_DOCS))]
     out += [{"part": "dup", "i": i} for i in range(len(DUP_DOCS))]
+    out += [{"part": "dag", "i": i} for i in range(len(dag_docs()))]
     sk = skeletons(7 if tier == "quick" else 8)
     out += [{"part": "skeleton", "lo": lo, "hi": min(lo + 4, len(sk)), "max": 7 if tier == "quick" else 8,
              "full": 6 if tier == "quick" else 7, "cap": 4000 if tier == "quick" else 20000}
@@ -101,6 +102,14 @@ DUP_DOCS = [{"a": {"x": 1, "y": 2}}, [{"x": 1, "y": 2}], {"a": {"x": 1, "y": 2},
             {"a": [{"p": 1, "q": 2}]}]
 DUP_QUERIES = ["$['a','a'][*]", "$[0,0][*]", "$[*,*][*]", "$['a','a'][?@]", "$[0,-1].*", "$['a','b','a'].*",
                "$..[*][*]", "$['a','a'][*][*]", "$.a[0,0].*", "$['a','a']..*"]
+# values whose containers are reachable along several paths (shared, not cyclic)
+def dag_docs():
+    s1 = [1]
+    s2 = {"k": [2]}
+    return [{"a": s1, "b": s1}, [s1, s1], {"a": {"k": s1}, "b": [s1]}, {"p": s2, "q": s2}, [s2, {"r": s2}]]
+
+
+DAG_QUERIES = ["$..*", "$..[*]", "$..[0]", "$..k", "$.*", "$..[?@]"]
 _SK = {}
 
 
@@ -218,7 +227,15 @@ def check_input(query, doc, sh=None, cap=CAP, flag="subclass"):
 
 
 def check_case(case):
-    doc = impl.unjsonable(case["doc"])
+    if "dag_doc" in case:
+        case = dict(case)
+        i = case.pop("dag_doc")
+        return _check_case(case, dag_docs()[i])
+    return _check_case(case, None)
+
+
+def _check_case(case, doc_override):
+    doc = doc_override if doc_override is not None else impl.unjsonable(case["doc"])
     if "choices" in case:
         v = rt.classify(case["query"])
         P = ev.permitted(v.ast, doc)
@@ -260,6 +277,13 @@ def run_shard(desc):
             for v in check_input(q, doc, sh):
                 sh.violation(v)
         sh.sample({"query": WIDE_QUERIES[0], "doc": impl.jsonable(doc)}, limit=1)
+    elif desc["part"] == "dag":
+        doc = dag_docs()[desc["i"]]
+        for q in DAG_QUERIES:
+            for v in check_input(q, doc, sh, cap=100000):
+                v["case"]["dag_doc"] = desc["i"]
+                sh.violation(v)
+        sh.sample({"query": DAG_QUERIES[0], "doc": impl.jsonable(doc), "shared_containers": True}, limit=1)
     elif desc["part"] == "dup":
         doc = DUP_DOCS[desc["i"]]
         for q in DUP_QUERIES:
